@@ -24,6 +24,7 @@ func checkC20(c *fw.Ctx) {
 	c20Mask(c)
 	c20Expiry(c)
 	c20FailingCaveat(c)
+	c20EveryTimeCaveat(c)
 	c20Issuer(c)
 	c20Clock(c)
 	c20Fresh(c)
